@@ -19,4 +19,13 @@ theorem dropWhile_head {α : Type} (p : α → Bool) : ∀ (l : List α) (q : α
     · simp [List.dropWhile, ha] at h; exact dropWhile_head p l q rest h
     · simp [List.dropWhile, ha] at h; obtain ⟨rfl, _⟩ := h; simpa using ha
 
+theorem lookup_cons_eq {α β : Type} [BEq α] [LawfulBEq α] (k : α) (v : β) (ps : List (α × β)) :
+    List.lookup k ((k, v) :: ps) = some v := by
+  simp [List.lookup]
+
+theorem lookup_cons_ne {α β : Type} [BEq α] [LawfulBEq α] (q k : α) (v : β) (ps : List (α × β)) (h : q ≠ k) :
+    List.lookup q ((k, v) :: ps) = List.lookup q ps := by
+  have : (q == k) = false := by simpa using h
+  simp only [List.lookup, this]
+
 end Borno.ListAux
